@@ -100,6 +100,11 @@ func (r *DecoratorResolver) imports(file *ast.File) (map[string]string, error) {
 			}
 			return true
 		case *ast.ImportSpec:
+			if _, err := strconv.Unquote(node.Path.Value); err != nil {
+				// a file that the parser returned together with a syntax error
+				outer = fmt.Errorf("goast.DecoratorResolver invalid import path %s: %w", node.Path.Value, err)
+				return false
+			}
 			path := mustUnquote(node.Path.Value)
 			if path == "C" {
 				return false
